@@ -116,6 +116,7 @@ def main():
         "obligations": obligations,
         "discharged": discharged,
         "theorems": thm_report,
+        "level_text": dict(getattr(plugin, "MANIFEST_ENTRY", {})).get("text", "proof (see MANIFEST.json)"),
         "obligation_classes": {c: sum(1 for t in thm_report if t.get("class") == c) for c in sorted(set(t.get("class") for t in thm_report))},
         "checker_cmd": "coq_makefile -f coq/%s/_CoqProject && make -k (full .vo build, coqc 8.16.1); coqc Properties.v with Print Assumptions under every theorem" % pid,
         "trusted_base": trusted,
